@@ -4,7 +4,7 @@ import itemgen as G, refmodel as R, glayer, gx
 from common import Expander, REPO, BUILD
 
 LEVEL = "other"
-G_UNITS = {"cmp_flags": ["HelperAttributesForCompareOp::is_reverse"], "misc": ["build_deref_for_struct"]}
+G_UNITS = {"cmp_flags": ["HelperAttributesForCompareOp::is_reverse"], "misc": ["build_deref_for_struct"], "implitem": ["to_ref_elem", "to_rhs"]}
 
 
 def seed_corpus():
